@@ -1,3 +1,4 @@
+#define VP_AMBIENT_ROUNDING 1 // results of this executor may not depend on the dynamic floating-point rounding mode (drv/vp.h)
 // C04 — vector and fixed buffer against an abstract sequence (also the vec/buf part of C07
 // when built with -DVP_FAULT: allocation faults injected at every request position).
 #include "fault.h"
@@ -219,7 +220,11 @@ static void op_push(Run &r, Box &b, Tape &t, bool fore, int sort_after)
         uint64_t fb = g_shim.faults;
         size_t oldnum = b.num();
         bool generic = !fore && (r.opno & 3) == 0; // the generic spellings a_vec_push / a_buf_push (= push_back)
-        void *p = b.is_buf ? (fore ? a_buf_push_fore(b.b) : generic ? a_buf_push(b.b) : a_buf_push_back(b.b)) : (fore ? a_vec_push_fore(b.v) : generic ? a_vec_push(b.v) : a_vec_push_back(b.v));
+        bool typed = (r.opno & 4) != 0; // the typed macro spellings (a cast of the function's result)
+        typedef uint8_t E;
+        void *p = typed ? (b.is_buf ? (fore ? (void *)A_BUF_PUSH_FORE(E, b.b) : generic ? (void *)A_BUF_PUSH(E, b.b) : (void *)A_BUF_PUSH_BACK(E, b.b))
+                                    : (fore ? (void *)A_VEC_PUSH_FORE(E, b.v) : generic ? (void *)A_VEC_PUSH(E, b.v) : (void *)A_VEC_PUSH_BACK(E, b.v)))
+                        : b.is_buf ? (fore ? a_buf_push_fore(b.b) : generic ? a_buf_push(b.b) : a_buf_push_back(b.b)) : (fore ? a_vec_push_fore(b.v) : generic ? a_vec_push(b.v) : a_vec_push_back(b.v));
         r.cx.log("%s push_%s key %u -> %s\n", b.is_buf ? "buf" : "vec", fore ? "fore" : "back", key, p ? "ok" : "null");
         if (!p)
         {
@@ -280,7 +285,8 @@ static void op_insert(Run &r, Box &b, Tape &t)
     {
         uint64_t fb = g_shim.faults;
         size_t oldnum = b.num();
-        void *p = b.is_buf ? a_buf_insert(b.b, idx) : a_vec_insert(b.v, idx);
+        void *p = (r.opno & 4) ? (b.is_buf ? (void *)A_BUF_INSERT(uint8_t, b.b, idx) : (void *)A_VEC_INSERT(uint8_t, b.v, idx))
+                               : (b.is_buf ? a_buf_insert(b.b, idx) : a_vec_insert(b.v, idx));
         r.cx.log("%s insert(%zu) key %u -> %s\n", b.is_buf ? "buf" : "vec", idx, e[0], p ? "ok" : "null");
         if (!p)
         {
@@ -313,7 +319,16 @@ static void op_remove(Run &r, Box &b, Tape &t, int kind) // 0 remove(idx) 1 pull
     bool spare = b.num() < b.mem();
     void *p;
     r.cx.log("%s %s(%zu) of %zu (%s) ...\n", b.is_buf ? "buf" : "vec", kind == 0 ? "remove" : kind == 1 ? "pull_fore" : "pull_back", idx, oldnum, spare ? "spare slot" : "exactly full");
-    if (kind == 0) { p = b.is_buf ? a_buf_remove(b.b, idx) : a_vec_remove(b.v, idx); }
+    if (r.opno & 4)
+    {
+        // typed macro spellings
+        typedef uint8_t E;
+        if (kind == 0) { p = b.is_buf ? (void *)A_BUF_REMOVE(E, b.b, idx) : (void *)A_VEC_REMOVE(E, b.v, idx); }
+        else if (kind == 1) { p = b.is_buf ? (void *)A_BUF_PULL_FORE(E, b.b) : (void *)A_VEC_PULL_FORE(E, b.v); }
+        else if ((r.opno & 3) == 0) { p = b.is_buf ? (void *)A_BUF_PULL(E, b.b) : (void *)A_VEC_PULL(E, b.v); }
+        else { p = b.is_buf ? (void *)A_BUF_PULL_BACK(E, b.b) : (void *)A_VEC_PULL_BACK(E, b.v); }
+    }
+    else if (kind == 0) { p = b.is_buf ? a_buf_remove(b.b, idx) : a_vec_remove(b.v, idx); }
     else if (kind == 1) { p = b.is_buf ? a_buf_pull_fore(b.b) : a_vec_pull_fore(b.v); }
     else if ((r.opno & 3) == 0) { p = b.is_buf ? a_buf_pull(b.b) : a_vec_pull(b.v); } // generic spelling (= pull_back)
     else { p = b.is_buf ? a_buf_pull_back(b.b) : a_vec_pull_back(b.v); }
@@ -574,8 +589,10 @@ static void op_push_sort(Run &r, Box &b, Tape &t)
         // (one byte holding the complement of the key) with a comparator that decodes its right argument accordingly
         uint8_t probe = uint8_t(~key);
         bool hetero = (r.opno & 1) != 0;
-        void *p = hetero ? (b.is_buf ? a_buf_push_sort(b.b, &probe, cmp_elem_probe) : a_vec_push_sort(b.v, &probe, cmp_elem_probe))
-                         : (b.is_buf ? a_buf_push_sort(b.b, e.data(), cmp_first) : a_vec_push_sort(b.v, e.data(), cmp_first));
+        void *p = (r.opno & 4) ? (hetero ? (b.is_buf ? (void *)A_BUF_PUSH_SORT(uint8_t, b.b, &probe, cmp_elem_probe) : (void *)A_VEC_PUSH_SORT(uint8_t, b.v, &probe, cmp_elem_probe))
+                                         : (b.is_buf ? (void *)A_BUF_PUSH_SORT(uint8_t, b.b, e.data(), cmp_first) : (void *)A_VEC_PUSH_SORT(uint8_t, b.v, e.data(), cmp_first)))
+                  : hetero ? (b.is_buf ? a_buf_push_sort(b.b, &probe, cmp_elem_probe) : a_vec_push_sort(b.v, &probe, cmp_elem_probe))
+                           : (b.is_buf ? a_buf_push_sort(b.b, e.data(), cmp_first) : a_vec_push_sort(b.v, e.data(), cmp_first));
         r.cx.log("%s push_sort key %u -> %s\n", b.is_buf ? "buf" : "vec", key, p ? "ok" : "null");
         if (!p)
         {
@@ -607,6 +624,10 @@ static void op_search(Run &r, Box &b, Tape &t)
     if (!model_sorted(b) || b.m.empty()) { return; }
     if (t.coin()) { key = b.m[t.u8() % b.m.size()][0]; }
     void *p = b.is_buf ? a_buf_search(b.b, &key, cmp_first) : a_vec_search(b.v, &key, cmp_first);
+    {
+        void *pt = b.is_buf ? (void *)A_BUF_SEARCH(uint8_t, b.b, &key, cmp_first) : (void *)A_VEC_SEARCH(uint8_t, b.v, &key, cmp_first);
+        VP_CHECK(r.cx, (pt == nullptr) == (p == nullptr), "seq:typed_macro", "typed SEARCH macro %s, the function %s", pt ? "finds an element" : "finds nothing", p ? "finds one" : "finds nothing");
+    }
     bool present = false;
     for (auto &e : b.m) { if (e[0] == key) { present = true; } }
     r.cx.label(L_SEARCH);
@@ -647,6 +668,7 @@ static void op_query(Run &r, Box &b, Tape &t)
     default: sidx = int64_t(t.u8() % (num + 2)); break;
     }
     void *q = b.is_buf ? a_buf_of(b.b, a_diff(sidx)) : a_vec_of(b.v, a_diff(sidx));
+    VP_CHECK(r.cx, (b.is_buf ? (void *)A_BUF_OF(uint8_t, b.b, a_diff(sidx)) : (void *)A_VEC_OF(uint8_t, b.v, a_diff(sidx))) == q, "seq:typed_macro", "typed OF macro differs from of(%lld)", (long long)sidx);
     // mathematical position: idx >= 0 -> idx ; idx < 0 -> num + idx
     bool neg = sidx < 0;
     bool valid;
@@ -688,6 +710,15 @@ static void op_query(Run &r, Box &b, Tape &t)
         if (b.siz == 8) { VP_CHECK(r.cx, (b.is_buf ? (void *)A_BUF_TOP(uint64_t, b.b) : (void *)A_VEC_TOP(uint64_t, b.v)) == top, "seq:top", "typed TOP macro differs from top"); }
     }
     if (base && !b.is_buf) { VP_CHECK(r.cx, a_vec_end_(b.v) == end, "seq:end", "end_ differs from end"); }
+    {
+        // the remaining typed spellings agree with the functions they wrap
+        typedef uint16_t E;
+        VP_CHECK(r.cx, (b.is_buf ? (void *)A_BUF_PTR(E, b.b) : (void *)A_VEC_PTR(E, b.v)) == (void *)base, "seq:typed_macro", "typed PTR macro differs from ptr");
+        VP_CHECK(r.cx, (b.is_buf ? (void *)A_BUF_END(E, b.b) : (void *)A_VEC_END(E, b.v)) == end, "seq:typed_macro", "typed END macro differs from end");
+        if (base && !b.is_buf) { VP_CHECK(r.cx, (void *)A_VEC_END_(E, b.v) == end, "seq:typed_macro", "typed END_ macro differs from end"); }
+        if (idx < mem) { VP_CHECK(r.cx, (b.is_buf ? (void *)A_BUF_AT_(E, b.b, idx) : (void *)A_VEC_AT_(E, b.v, idx)) == p, "seq:typed_macro", "typed AT_ macro differs from at(%zu)", idx); }
+        if (num) { VP_CHECK(r.cx, (b.is_buf ? (void *)A_BUF_TOP_(E, b.b) : (void *)A_VEC_TOP_(E, b.v)) == top, "seq:typed_macro", "typed TOP_ macro differs from top"); }
+    }
     switch (b.siz)
     {
     case 1: check_foreach<uint8_t>(r, b); break;
